@@ -4,7 +4,6 @@ import (
 	"context"
 	"crypto/tls"
 	"fmt"
-	"log/slog"
 	"net"
 	"strconv"
 	"sync"
@@ -125,7 +124,7 @@ func runOverlap(r *lib.Rng, scripts []script, pauseAt, ncalls int, tags string) 
 	p.scripts, p.pauseAt, p.obs = scripts, pauseAt, nil
 	p.paused, p.resume = make(chan struct{}, 1), make(chan struct{})
 	p.mu.Unlock()
-	f := &ntske.Fetcher{Log: slog.New(slog.DiscardHandler)}
+	f := &ntske.Fetcher{Log: fetcherLog(r)}
 	f.TLSConfig = tls.Config{InsecureSkipVerify: true, MinVersion: tls.VersionTLS13, ServerName: addrA.String()}
 	f.Port = strconv.Itoa(p.ln.Addr().(*net.TCPAddr).Port)
 	res := make([]chan ovRes, ncalls)
@@ -213,7 +212,7 @@ func ovMsg(r *lib.Rng, n int, ending int, server string, port int) (script, []in
 	}
 	offs := []int{totalLen(rs)} // byte offsets after 0, 1, 2, ... cookie records
 	for i := 0; i < n; i++ {
-		rs = append(rs, rec{5, false, r.Bytes(100 + 4*r.Intn(8))})
+		rs = append(rs, rec{5, false, r.Bytes(lib.Pick(r, 100+4*r.Intn(8), 129+r.Intn(768)))})
 		offs = append(offs, totalLen(rs))
 	}
 	switch ending {
